@@ -13,6 +13,7 @@ type DriverOpts struct {
 	Targets  int
 	BigPop   bool // start with a large population (limit caps)
 	Explicit bool // use explicit received_at / next_run_at values
+	Churn    bool // start with > 1024 enqueues of which most are consumed (memory order-list compaction, long id history)
 	Profile  string
 }
 
@@ -30,15 +31,16 @@ const (
 	kLookup
 	kStats
 	kTick
+	kRace
 	kN
 )
 
 var profiles = map[string][kN]int{
-	"all":       {18, 5, 18, 14, 7, 8, 7, 4, 3, 2, 3, 11},
-	"lease":     {14, 2, 24, 22, 12, 6, 2, 1, 0, 0, 1, 16},
-	"time":      {14, 2, 26, 18, 6, 3, 1, 1, 0, 0, 3, 26},
-	"admission": {30, 16, 14, 10, 4, 6, 2, 2, 1, 1, 4, 10},
-	"operator":  {14, 4, 10, 8, 3, 20, 22, 6, 4, 3, 1, 5},
+	"all": {18, 5, 18, 14, 7, 8, 7, 4, 3, 2, 3, 11, 3},
+	"lease": {14, 2, 24, 22, 12, 6, 2, 1, 0, 0, 1, 16, 3},
+	"time": {14, 2, 26, 18, 6, 3, 1, 1, 0, 0, 3, 26, 1},
+	"admission": {30, 16, 14, 10, 4, 6, 2, 2, 1, 1, 4, 10, 1},
+	"operator": {14, 4, 10, 8, 3, 20, 22, 6, 4, 3, 1, 5, 6},
 }
 
 // ProfileCfg adapts a random configuration to a profile.
@@ -46,6 +48,9 @@ func ProfileCfg(r *rand.Rand, c Cfg, profile string) Cfg {
 	switch profile {
 	case "admission":
 		c.MaxDepth = pick(r, 1, 2, 2, 3, 4)
+		if r.Intn(3) == 0 {
+			c.PressItems = pick(r, 1, 2, 3)
+		}
 	case "time":
 		if r.Intn(2) == 0 {
 			c.PruneInt = pick(r, 1, 10)
@@ -232,6 +237,42 @@ func GenSchedule(r *rand.Rand, name string, cfg Cfg, o DriverOpts) Schedule {
 		tickSet = []int{1, 1, 2, 4, 5, 9, 10, 10, 11, 15, 19, 20, 21, 30, 50, 100}
 		ttlSet = []int{5, 10, 20, 20, 30, 50, 0}
 	}
+	if o.Churn {
+		// 1140 messages, 900 of them consumed in batches, 100 leased and abandoned, then redelivery
+		n := 0
+		for b := 0; b < 12; b++ {
+			envs := make([]EnvSpec, 0, 95)
+			for i := 0; i < 95; i++ {
+				n++
+				envs = append(envs, EnvSpec{ID: fmt.Sprintf("c%04d", n), Rt: routes[0], Tg: targets[0], Pl: "a"})
+			}
+			ops = append(ops, Op{Op: "EnqueueBatch", Envs: envs})
+		}
+		for round := 0; round < 9; round++ {
+			ops = append(ops, Op{Op: "Dequeue", Rt: routes[0], Batch: 100, TTL: 50})
+			refs := make([]LeaseRef, 0, 100)
+			for i := 1; i <= 100; i++ {
+				refs = append(refs, LeaseRef{Msg: fmt.Sprintf("c%04d", round*100+i)})
+			}
+			ops = append(ops, Op{Op: "LeaseBatch", Kind: "ack", Leases: refs})
+		}
+		ops = append(ops,
+			Op{Op: "Dequeue", Rt: routes[0], Batch: 100, TTL: 20},
+			Op{Op: "Tick", D: 30},
+			Op{Op: "Dequeue", Rt: routes[0], Batch: 100, TTL: 20},
+			Op{Op: "LeaseOp", Kind: "nack", Lease: &LeaseRef{Msg: "c0901"}, Arg: 7},
+			Op{Op: "LeaseOp", Kind: "nack", Lease: &LeaseRef{Msg: "c0950"}, Arg: 0},
+			Op{Op: "Tick", D: 7},
+			Op{Op: "Dequeue", Rt: routes[0], Batch: 100, TTL: 20},
+			Op{Op: "Tick", D: 25},
+			Op{Op: "Dequeue", Rt: routes[0], Batch: 100, TTL: 20},
+			Op{Op: "Dequeue", Rt: routes[0], Batch: 100, TTL: 20},
+			Op{Op: "Dequeue", Rt: routes[0], Batch: 100, TTL: 20},
+			Op{Op: "Stats"})
+		now += 62
+		ids = append(ids, "c0901", "c0950", "c1001", "c1140")
+		o.Ops = len(ops) + 15
+	}
 	for len(ops) < o.Ops {
 		switch kind() {
 		case kEnq:
@@ -298,6 +339,30 @@ func GenSchedule(r *rand.Rand, name string, cfg Cfg, o DriverOpts) Schedule {
 			ops = append(ops, Op{Op: "Lookup", IDs: idList()})
 		case kStats:
 			ops = append(ops, Op{Op: "Stats"})
+		case kRace:
+			// a by-filter mutation with other operations between its select and its update (SQLite)
+			var inner []Op
+			for k := 1 + r.Intn(3); k > 0; k-- {
+				switch r.Intn(6) {
+				case 0:
+					inner = append(inner, Op{Op: "Dequeue", Batch: pick(r, 1, 3), TTL: 20})
+				case 1:
+					l := lease()
+					inner = append(inner, Op{Op: "LeaseOp", Kind: pick(r, "ack", "nack", "dead"), Lease: &l, Reason: "no_retry"})
+				case 2:
+					inner = append(inner, Op{Op: "MutateIds", MOp: pick(r, "resume", "requeue", "cancel", "requeuedead", "deletedead"), IDs: []string{rid(), rid()}})
+				case 3:
+					e := env(rid())
+					inner = append(inner, Op{Op: "Enqueue", Env: &e})
+				case 4:
+					inner = append(inner, Op{Op: "Dequeue", Batch: 5, TTL: 50}, Op{Op: "LeaseBatch", Kind: "ack", Leases: []LeaseRef{{Msg: rid()}, {Msg: rid()}, {Msg: rid()}}})
+				default:
+					inner = append(inner, Op{Op: "MutateIds", MOp: "resume", IDs: append([]string{}, ids...)}, Op{Op: "Dequeue", Batch: 5, TTL: 30})
+				}
+			}
+			f := filter()
+			f.Limit = pick(r, 0, 0, 2, 1000)
+			ops = append(ops, Op{Op: "FilterRace", MOp: pick(r, "cancel", "requeue", "resume"), F: f, Inner: inner})
 		default:
 			d := tickSet[r.Intn(len(tickSet))]
 			now += d
